@@ -1,5 +1,6 @@
 //! `sdjwt_model`: reference models, independent codec, tamper operators and per-property oracles
 //! for sd-jwt-rs. No proptest in here, so that fuzz targets and replay can use the same oracles.
+pub mod clock;
 pub mod codec;
 pub mod derive;
 pub mod exact;
